@@ -36,7 +36,7 @@ type c30case struct {
 }
 
 var c30mutations = []string{"flip-payload-byte", "chunk-size-digit", "final-chunk-size-digit", "chunk-signature-digit", "trailer-value", "trailer-name",
-	"trailer-signature", "drop-trailer", "drop-final-chunk", "truncate-at-chunk-boundary", "chunk-size-digit-up"}
+	"trailer-signature", "drop-trailer", "drop-final-chunk", "truncate-at-chunk-boundary", "chunk-size-digit-up", "chunk-size-plus-one"}
 
 // c30TailLen is the number of framing bytes that follow the payload of a
 // single-chunk upload (CRLF, terminating chunk, trailer section); it does not
@@ -102,6 +102,23 @@ func c30mut(kind string, c c30case) streamMut {
 				}
 			}
 			b[s.Lo] = 'e' // all digits were f: shrink instead (still a modified chunk)
+			return b
+		}
+	case "chunk-size-plus-one":
+		// a data chunk that is followed by another data chunk claims ONE byte more: the decoder
+		// then swallows the CR of the chunk's CRLF and the first digit of the next size field -
+		// the rest of the framing can still look well-formed
+		if c.PayloadLen == 0 || c.ChunkSize <= 0 || c.PayloadLen <= c.ChunkSize {
+			return nil
+		}
+		return func(l *chunkLayout) []byte {
+			b := cp(l)
+			s := l.SizeDigits[0]
+			i := s.Hi - 1
+			if b[i]|0x20 == 'f' {
+				return b
+			}
+			b[i] = flipHexDigit(b[i]) // +1 on the last hex digit
 			return b
 		}
 	case "final-chunk-size-digit":
@@ -505,7 +522,7 @@ func runC30(tier, replay string) {
 	if r.Thorough() {
 		mutShapes = append(mutShapes, [2]int{65536, 1}, [2]int{300000, 8192}, [2]int{1 << 20, 65536}, [2]int{9, 1}, [2]int{0, 0})
 	} else {
-		mutShapes = append(mutShapes, [2]int{0, 0})
+		mutShapes = append(mutShapes, [2]int{0, 0}, [2]int{262144, 65536})
 	}
 	skipped := 0
 	for _, cfg := range configs {
